@@ -85,6 +85,9 @@ class CallMixin:
             return BoundMethod(v, attr)
         if isinstance(v, ClassV):
             return BoundMethod(v, attr)
+        from .values import AbsV
+        if isinstance(v, Ref) and isinstance(st.deref(v), AbsV):
+            return BoundMethod(v, attr)
         raise Unsupported(f"attribute {attr} of {v!r}")
 
     def set_attr(self, obj, attr, v, st):
@@ -110,15 +113,67 @@ class CallMixin:
             return
         raise Unsupported(f"attribute store on {obj!r}")
 
-    def find_method_contract(self, cls, name):
-        for modname in ("formatstring", "formatstringarray", "window", "input", "termhelpers", "events", "escseqparse"):
+    MODS = ("formatstring", "formatstringarray", "window", "input", "termhelpers", "events", "escseqparse")
+
+    def find_method_contract(self, cls, name, _seen=None):
+        for modname in self.MODS:
             k = f"{modname}:{cls}.{name}"
             if k in self.registry:
                 return self.registry[k]
+        if f"ext:{cls}.{name}" in self.registry:
+            return self.registry[f"ext:{cls}.{name}"]
+        # inherited method: follow the real class's MRO
+        import sys as _sys
+        for modname in self.MODS:
+            m = _sys.modules.get("curtsies." + modname)
+            real = getattr(m, cls, None) if m else None
+            if isinstance(real, type):
+                for base in real.__mro__[1:]:
+                    if name in base.__dict__ and base.__name__ != cls:
+                        return self.find_method_contract(base.__name__, name)
+                break
         return None
 
     # ------------------------------------------------------------------ calls
+    def super_call(self, n, st):
+        """super().m(args): the next class in the real MRO that defines m, through its contract"""
+        import inspect
+        meth = n.func.attr
+        cls_name = self.contract.qualname.split(".")[0]
+        cls = getattr(self.module, cls_name)
+        for base in cls.__mro__[1:]:
+            if meth in base.__dict__:
+                c = self.find_method_contract(base.__name__, meth)
+                args = [self.ev(a, st) for a in n.args]
+                kwargs = {k.arg: self.ev(k.value, st) for k in n.keywords}
+                if c is None:
+                    # no contract: the parent's real body is executed (inlined through its AST)
+                    from .verify import find_function
+                    import sys as _sys
+                    pmod = _sys.modules[base.__module__]
+                    if not base.__module__.startswith("curtsies"):
+                        raise Unsupported(f"super().{meth}: {base.__name__}.{meth} is outside the library and has no contract")
+                    fn, _ = find_function(pmod, f"{base.__name__}.{meth}")
+                    return self.call_closure(FuncV(fn, {}, f"{base.__name__}.{meth}", module=pmod), [st.env["self"]] + args, kwargs, st,
+                                             allow_none_return=True)
+                return self.call_contract(c, [st.env["self"]] + args, kwargs, st)
+        raise Unsupported(f"super().{meth} not found")
+
+    def instantiate_inline(self, key, args, kwargs, st):
+        """Cls(args): a new object whose __init__ is executed through its real AST"""
+        from .verify import load_module, find_function
+        modname, clsname = key.split(":")
+        mod = load_module(modname)
+        fn, _ = find_function(mod, clsname + ".__init__")
+        obj = st.alloc(ObjV(clsname, {}))
+        f = FuncV(fn, {}, clsname + ".__init__", module=mod)
+        self.call_closure(f, [obj] + list(args), kwargs, st, allow_none_return=True)
+        return obj
+
     def e_Call(self, n, st):
+        if isinstance(n.func, ast.Attribute) and isinstance(n.func.value, ast.Call) and isinstance(n.func.value.func, ast.Name) \
+                and n.func.value.func.id == "super" and not n.func.value.args:
+            return self.super_call(n, st)
         if isinstance(n.func, ast.Name) and n.func.id == "cast" and len(n.args) == 2 and n.func.id not in st.env:
             return self.ev(n.args[1], st)       # typing.cast(T, x) is x; the type expression is not evaluated
         f = self.ev(n.func, st)
@@ -197,19 +252,29 @@ class CallMixin:
         _INLINE_CACHE[key] = FuncV(fn, {}, qual)
         return _INLINE_CACHE[key]
 
-    def call_closure(self, f, args, kwargs, st):
+    def call_closure(self, f, args, kwargs, st, allow_none_return=False):
         node = f.node
         if isinstance(node, ast.FunctionDef):
             params = [a.arg for a in node.args.args]
+            args = list(args)
+            for p in params[len(args):]:
+                if p in kwargs:
+                    args.append(kwargs.pop(p))
             if len(params) != len(args) or kwargs:
                 raise Unsupported("inlined helper arity")
             saved = st.env
+            saved_mod = self.module
             st.env = dict(f.env)
             st.env.update(zip(params, args))
+            if f.module is not None:
+                self.module = f.module          # globals of an inlined body resolve in the module that defines it
             try:
                 outs = self.exec_block(node.body, st)
             finally:
                 env_after, st.env = st.env, saved
+                self.module = saved_mod
+            if allow_none_return and len(outs) == 1 and outs[0][1] == ("normal",) and outs[0][0] is st:
+                return None
             if len(outs) != 1 or outs[0][1][0] != "return" or outs[0][0] is not st:
                 raise Unsupported(f"inlined helper {f.name} is not a single straight-line return")
             return outs[0][1][1]
@@ -256,6 +321,9 @@ class CallMixin:
                 d.update(kwargs)
                 return st.alloc(DictV(d))
             raise Unsupported(f"{name}(...) of {src!r}")
+        inl = getattr(self.contract, "inline", {}) or {}
+        if name in inl:
+            return self.instantiate_inline(inl[name], args, kwargs, st)
         c = self.find_method_contract(name, "__init__")
         if c is not None:
             return self.call_contract(c, args, kwargs, st)
@@ -596,6 +664,10 @@ class CallMixin:
                 if c is None:
                     raise Unsupported(f"method {o.cls}.{name} without a contract")
                 return self.call_contract(c, [recv] + list(args), kwargs, st)
+            from .values import AbsV
+            if isinstance(o, AbsV) and name in ("append", "extend", "pop", "clear", "insert", "remove", "update", "sort"):
+                o.term = fresh("abs", T.I)      # an opaque object is mutated: its contents are now unknown
+                return None
         if isinstance(recv, Sym) and recv.tag in CLASS_OF_TAG:
             return self.call_method_contract(recv, name, args, kwargs, st)
         if isinstance(recv, (str, bytes)) or (isinstance(recv, Sym) and recv.tag in ("str", "bytes")):
@@ -706,7 +778,10 @@ class CallMixin:
             if pre is not True:
                 self.oblige(st, "pre@callee", pre if pre is not False else z3.BoolVal(False), label=c.qualname)
         for exc, cond in c.raises.items():
-            cv = cond(a)
+            if cond == "may":
+                cv = st.nd_bool(f"{c.qualname}.raises.{exc}")
+            else:
+                cv = cond(a)
             if cv is False:
                 continue
             if self.decide(cv, st):
@@ -733,7 +808,20 @@ class CallMixin:
         return res
 
     # ------------------------------------------------------------------ context managers (with)
+    def _cm_inline(self, cm, st, meth, args):
+        from .verify import load_module, find_function
+        cls = st.deref(cm).cls
+        modname, clsname = (getattr(self.contract, "inline", {}) or {})[cls].split(":")
+        mod = load_module(modname)
+        fn, _ = find_function(mod, f"{clsname}.{meth}")
+        return self.call_closure(FuncV(fn, {}, f"{clsname}.{meth}", module=mod), [cm] + args, {}, st, allow_none_return=True)
+
     def cm_enter(self, cm, st):
+        if isinstance(cm, Ref) and isinstance(st.deref(cm), ObjV) and st.deref(cm).cls in (getattr(self.contract, "inline", {}) or {}):
+            try:
+                return [(st, ("normal",), self._cm_inline(cm, st, "__enter__", []))]
+            except PyRaise as e:
+                return [(st, ("raise", e.cls), None)]
         if isinstance(cm, Ref) and isinstance(st.deref(cm), ObjV):
             cls = st.deref(cm).cls
             c = self.find_method_contract(cls, "__enter__")
@@ -748,6 +836,12 @@ class CallMixin:
 
     def cm_exit(self, cm, st, oc):
         cls = st.deref(cm).cls
+        if cls in (getattr(self.contract, "inline", {}) or {}):
+            try:
+                self._cm_inline(cm, st, "__exit__", [None, None, None])
+            except PyRaise as e:
+                return [(st, ("raise", e.cls))]
+            return [(st, oc)]
         c = self.find_method_contract(cls, "__exit__")
         if c is None:
             raise Unsupported(f"{cls}.__exit__ without a contract")
